@@ -25,10 +25,19 @@ class Named:
         s.__module__ = m
 
 
+def fresh(s):
+    """An equal string that is a different, non-interned object (CPython
+    shares the empty string and one-character strings, nothing longer that is
+    built at run time)."""
+    return ''.join([c for c in s])
+
+
 def universe():
-    IF = [InterfaceClass(n, (Interface,), {}, __module__=m) for n in NAMES for m in MODS]
-    twin = InterfaceClass('a', (Interface,), {}, __module__='m')
-    twin2 = InterfaceClass('\xe9', (Interface,), {}, __module__='ma')
+    # every interface gets its own string objects for name and module
+    IF = [InterfaceClass(fresh(n), (Interface,), {}, __module__=fresh(m))
+          for n in NAMES for m in MODS]
+    twin = InterfaceClass(fresh('ab'), (Interface,), {}, __module__=fresh('ma'))
+    twin2 = InterfaceClass('\xe9', (Interface,), {}, __module__=fresh('ma'))
 
     def mkcls(n, mod='cm'):
         return type(n, (), {'__module__': mod})
@@ -47,6 +56,31 @@ def universe():
 
 def key(x):
     return (x.__name__, x.__module__)
+
+
+def odd_names():
+    """A name containing blanks and no documentation string is taken as the
+    documentation and the interface ends up with ``__name__`` None: still,
+    interfaces with equal (name, module) pairs are equal and hash equal."""
+    mk = lambda text, mod: InterfaceClass(fresh(text), __module__=fresh(mod))
+    a, b, c = mk('has a blank', 'pk.m'), mk('has two blanks', 'pk.m'), mk('has a blank', 'pk.n')
+    for x, y in itertools.product((a, b, c), repeat=2):
+        same = key(x) == key(y)
+        if (x == y) != same or (x != y) == same:
+            return ('eq', key(x), key(y), x == y)
+        if same and hash(x) != hash(y):
+            return ('hash-of-equal-differs', key(x), key(y))
+    if len({a, b}) != 1 or {a: 1}.get(b) != 1:
+        return ('hash-of-equal-differs', key(a), key(b), 'set/dict lookup')
+    # against an ordinarily named interface: simply unequal
+    d = InterfaceClass(fresh('IDoc'), (Interface,), {'__doc__': 'documented'}, __module__=fresh('pk.m'))
+    try:
+        r = (a == d, a != d, d == a, d != a)
+    except TypeError:
+        return ('eq-raises-between-None-named-and-named-interface', key(a), key(d))
+    if r != (False, True, False, True):
+        return ('eq', key(a), key(d), r)
+    return None
 
 
 def laws(arg):
@@ -87,11 +121,18 @@ def laws(arg):
             # < nor ==, which the property leaves open beyond determinism
             lt, le, gt, ge = a < b, a <= b, a > b, a >= b
             row += [lt, le, gt, ge]
-            if both_if and (lt or gt or not le or not ge):
-                bad('order-of-equal-interfaces', ka, kb, (lt, le, gt, ge))
+            if lt or gt or not le or not ge:
+                # ordering follows the key for class specifications too (only
+                # their *equality* is by identity): anything else, e.g. an
+                # address, makes sorting depend on the process
+                bad('order-of-equal-interfaces' if both_if else 'order-of-equal-keys',
+                    ka, kb, (lt, le, gt, ge))
         if (a < b) != (b > a) or (a <= b) != (b >= a):
             bad('reflected', ka, kb)
         matrix.append(row)
+    v = odd_names()
+    if v:
+        bad(*v)
     for a in U:
         n += 1
         if not (a < None) or (a > None) or not (a <= None) or (a >= None):
